@@ -126,8 +126,9 @@ var (
 
 // sver is the scripted verifier: blob[0]=='v' verifies, anything else fails with (outcome-with-error, error) like the real verifier.
 type sver struct {
-	skip bool
-	repo *srepo
+	skip     bool
+	ownLevel bool // the skip level is reported as a value of the verifier's own making
+	repo     *srepo
 }
 
 func (v *sver) Verify(ctx context.Context, desc ocispec.Descriptor, sig []byte, opts notation.VerifierVerifyOptions) (*notation.VerificationOutcome, error) {
@@ -158,6 +159,14 @@ func (v *sver) Verify(ctx context.Context, desc ocispec.Descriptor, sig []byte, 
 	return out, out.Error
 }
 func (v *sver) SkipVerify(ctx context.Context, opts notation.VerifierVerifyOptions) (bool, *trustpolicy.VerificationLevel, error) {
+	if v.skip && v.ownLevel {
+		// a verifier that builds (copies, deserialises) its levels itself: a skip level is a skip level whoever made the value
+		own := trustpolicy.VerificationLevel{Name: trustpolicy.LevelSkip.Name, Enforcement: map[trustpolicy.ValidationType]trustpolicy.ValidationAction{}}
+		for k, a := range trustpolicy.LevelSkip.Enforcement {
+			own.Enforcement[k] = a
+		}
+		return true, &own, nil
+	}
 	if v.skip {
 		return true, trustpolicy.LevelSkip, nil
 	}
@@ -385,7 +394,7 @@ func main() {
 			rv.repo = repo
 			v = rv
 		} else {
-			v = &sver{skip: s.skip, repo: repo}
+			v = &sver{skip: s.skip, ownLevel: si%2 == 1, repo: repo}
 		}
 		ref := "reg.example/repo"
 		switch s.ref {
